@@ -133,14 +133,14 @@ Print Assumptions C12_gen_get_cached_outcome_eq.
 (* ---- the stateful phase (ModelP_C11: execute_state_machine_loop, one thread) ----
    After the stop request or the failure limit is visible at most ONE further step (request) is executed - the one whose
    entry test came just before - whatever Hypothesis does inside run(), wherever the stop arrives, for every limit. *)
-Theorem C12_stateful_at_most_one_step_after_stop : forall c stop0 limit0 counter0 behs ls,
-  count_true (p_bodies (prun c ls (pinit stop0 limit0 counter0 behs))) <= 1.
+Theorem C12_stateful_at_most_one_step_after_stop : forall c faults stop0 limit0 counter0 behs ls,
+  count_true (p_bodies (prun c ls (pinit_f faults stop0 limit0 counter0 behs))) <= 1.
 Proof. exact producer_at_most_one_after_stop. Qed.
 Print Assumptions C12_stateful_at_most_one_step_after_stop.
 
 (* A stateful phase entered after the stop was requested sends nothing and announces no scenario. *)
-Theorem C12_stateful_nothing_when_stopped_before_start : forall c limit0 counter0 behs ls,
-  let s := prun c ls (pinit true limit0 counter0 behs) in
+Theorem C12_stateful_nothing_when_stopped_before_start : forall c faults limit0 counter0 behs ls,
+  let s := prun c ls (pinit_f faults true limit0 counter0 behs) in
   p_bodies s = [] /\ scenario_statuses (p_out s) = [].
 Proof. exact producer_stopped_before_start. Qed.
 Print Assumptions C12_stateful_nothing_when_stopped_before_start.
